@@ -3,7 +3,7 @@
 import json, glob, os, subprocess, re, sys
 rows = []
 only = sys.argv[1:]
-for meta in sorted(glob.glob("/verif/seeded/*/meta.json")):
+for meta in sorted([m for m in glob.glob("/verif/seeded/*/meta.json") if "/retired/" not in m]):
     m = json.load(open(meta)); d = os.path.dirname(meta)
     if only and m["id"] not in only: continue
     if subprocess.run(["git", "-C", "/repo", "status", "--porcelain", "--untracked-files=no"], capture_output=True, text=True).stdout.strip():
